@@ -25,12 +25,14 @@ from lattice import classify_style, base_opts, build_args
 PROP = "C16"
 TABS = 4
 
-PATHS_FULL = ["a.rs", "src/a-b.rs", "x-7-y.rs", "d.d/f.c", "Makefile", "a b.rs", "v1.2/x.c"]
-PATHS_SMALL = ["a.rs", "src/a-b.rs", "x-7-y.rs", "Makefile"]
+PATHS_FULL = ["a.rs", "src/a-b.rs", "x-7-y.rs", "d.d/f.c", "Makefile", "a b.rs", "v1.2/x.c",
+              "pkg-1.2-3-rc/src/main.rs", "v2.0=1=x/y.c", "lib-0.9:2/z.py"]
+PATHS_SMALL = ["a.rs", "src/a-b.rs", "x-7-y.rs", "Makefile", "pkg-1.2-3-rc/src/main.rs"]
 NUMBERS_FULL = [None, 1, 7, 123]
 NUMBERS_SMALL = [None, 7, 123]
-CODES_FULL = ["x", "a:b", "foo-7-bar", "", "\tind", "é漢", "long " * 12 + "end", "main() main"]
-CODES_SMALL = ["x main", "a:b-3-c", "", "\tmain é"]
+CODES_FULL = ["x", "a:b", "foo-7-bar", "", "\tind", "é漢", "long " * 12 + "end", "main() main",
+              "  \t  \tint main = 2;", "\t\tmain", " \tmain"]
+CODES_SMALL = ["x main", "a:b-3-c", "", "\tmain é", "    \t    \tint main = 2;"]
 KINDS = [("match", ":"), ("context", "-"), ("header", "=")]
 
 
@@ -226,6 +228,14 @@ def ambiguous_plain(h):
     import re
     if re.search(r"\w\.\w+[:=-]\d+[:=-]", h.code):
         return True
+    # the same look-alike inside the *path* (a directory like pkg-1.2-3-rc/) is resolved by the real
+    # `:number:` that follows the file name; without a line number nothing can resolve it
+    # a ':' inside a path cannot be told from the separator that ends it (delta documents: "colons not
+    # allowed" in plain-text file names)
+    if ":" in h.path:
+        return True
+    if h.number is None and re.search(r"\w\.\w+[:=-]", h.path):
+        return True
     # a path without extension and no line number cannot be told from prose
     return False
 
@@ -294,7 +304,9 @@ def conformance(cases):
 
 ASSUMPTIONS = [
     "hits: kinds match/context/function-header x the listed paths x numbers {absent,1,7,123} x codes; "
-    "plain-text streams only with lines inside the statement's unambiguous shapes",
+    "plain-text streams only with lines inside the statement's unambiguous shapes; in addition a plain-text "
+    "hit WITHOUT a line number whose path itself contains a `name.ext` followed by a separator "
+    "(directories `pkg-1.2-3-rc/`, `lib-0.9:2/`) is treated as inherently ambiguous (with a line number it is checked)",
     "a row may be completed one step late (classic rows leave the code in the output buffer until the "
     "next line): only order, completeness at end of input and content are required",
     "function-context header rows are not required to repeat the path (they are rendered like hunk "
